@@ -883,14 +883,14 @@ def filter_literal(
             + "L" * (ty.bit_length > 16)
             + "L" * (ty.bit_length > 32)
         )
-        assert isinstance(out, str)
+        out = out if value != -(2**63) else "(-9223372036854775807LL - 1)"  # there are no negative literals in C.
         return out
 
     elif isinstance(ty, pydsdl.FloatType):
-        if value.denominator == 1:
-            expr = "{}.0".format(value.numerator)
+        if max(abs(value.numerator), value.denominator) >= 10**300:  # the operands would overflow as double literals.
+            expr = repr(float(value))
         else:
-            expr = "({}.0 / {}.0)".format(value.numerator, value.denominator)
+            expr = ("{}.0" if value.denominator == 1 else "({}.0 / {}.0)").format(value.numerator, value.denominator)
         cast = filter_type_from_primitive(language, ty)
         return cast_format.format(type=cast, value=expr)
 
